@@ -1211,3 +1211,313 @@ Lemma merge_thm : forall st other st', merge_in st other = Some st' -> wf (flat_
   wf (flat_graph st') /\ (exists more, flat st' = flat st ++ more) /\
   (forall e, In e other -> commit_id_to_pos st' (fst e) <> None).
 Proof. intros st other st'. apply merge_in_spec. Qed.
+
+(** * heads_from_range_and_filter with every parent followed *)
+Section HeadsRange.
+  Variable g : graph.
+  Hypothesis W : wf g.
+  Variables rs hs : list nat.
+  Variable flt : nat -> bool.
+  Variable hi : nat.
+  Hypothesis Hhi : forall i, length (parents g i) <= hi.
+
+  Lemma slice_all i : slice_range 0 hi (parents g i) = parents g i.
+  Proof. unfold slice_range. simpl. rewrite Nat.sub_0_r. apply firstn_all2, Hhi. Qed.
+
+  Definition inH (x : nat) : Prop := exists h, In h hs /\ anc g x h.
+  Definition inR (x : nat) : Prop := exists r, In r rs /\ anc g x r.
+  Definition unw (F : list nat) (x : nat) : Prop := inR x \/ exists f, In f F /\ sanc g x f.
+  Definition inT (x : nat) : Prop := inH x /\ ~ inR x /\ flt x = true.
+  Definition coverU (U F : list nat) (k : nat) : Prop :=
+    forall x, x < k -> unw F x -> exists u, In u U /\ anc g x u.
+
+  Lemma unw_anc F x y : anc g x y -> unw F y -> unw F x.
+  Proof.
+    intros Ha [(r & Hr & Hy)|(f & Hf & Hy)].
+    - left. exists r. split; [assumption|]. eapply anc_trans; eassumption.
+    - right. exists f. split; [assumption|]. eapply anc_sanc_trans; eassumption.
+  Qed.
+
+  Lemma unw_mono F f x : unw F x -> unw (f :: F) x.
+  Proof. intros [H|(f' & Hf & H)]; [now left|right; exists f'; split; [now right|assumption]]. Qed.
+
+  Lemma shiftU_cover q t F k k' : desc (q :: t) -> coverU (q :: t) F k ->
+    (forall x, x < k' -> x < k /\ x <> q) ->
+    coverU (shift_to_parents (q :: t) (parents g q)) F k'.
+  Proof.
+    intros D Cv Hk x Hx Ux. destruct (Hk x Hx) as [Lx Nx].
+    destruct (Cv x Lx Ux) as (u & Hu & Ha).
+    assert (Q : u = q \/ (In u t /\ u < q)).
+    { destruct Hu as [->|Hu]; [now left|]. destruct D as [B _]. specialize (B _ Hu).
+      destruct (Nat.eq_dec u q); [now left|right; split; [assumption|lia]]. }
+    destruct Q as [->|[H1 H2]].
+    - destruct (sanc_inv g x q (conj Ha Nx)) as (p & Hp & Hxp). exists p. split; [|assumption].
+      apply shift_in; [assumption|]. now left.
+    - exists u. split; [|assumption]. apply shift_in; [assumption|]. right. now split.
+  Qed.
+
+  Lemma shift_until_ok F w : forall fuel U,
+    desc U -> hd 0 U < fuel -> (forall u, In u U -> unw F u) -> coverU U F (S w) ->
+    exists U' b, shift_until g fuel U w = Some (U', b) /\ desc U' /\
+      (forall u, In u U' -> unw F u) /\
+      (if b then unw F w /\ coverU U' F w
+       else (forall u, In u U' -> u < w) /\ coverU U' F (S w)).
+  Proof.
+    induction fuel as [|fuel IH]; intros U D Fu Su Cv; [lia|].
+    simpl. destruct U as [|q t].
+    - exists [], false. repeat split; try assumption. intros u [].
+    - destruct (Nat.ltb_spec q w) as [L|L].
+      + exists (q :: t), false. split; [reflexivity|]. split; [assumption|]. split; [assumption|].
+        split; [|assumption]. intros u [<-|Hu]; [assumption|]. destruct D as [B _]. apply B in Hu. lia.
+      + assert (D' : desc (shift_to_parents (q :: t) (parents g q))) by now apply shift_desc.
+        assert (Su' : forall u, In u (shift_to_parents (q :: t) (parents g q)) -> unw F u).
+        { intros u Hu. apply shift_in in Hu; [|assumption]. destruct Hu as [Hu|[Hu _]].
+          - apply (unw_anc F u q); [now apply anc_parent|]. apply Su. now left.
+          - apply Su. now right. }
+        destruct (Nat.eqb_spec q w) as [E|N].
+        * subst q. exists (shift_to_parents (w :: t) (parents g w)), true.
+          split; [reflexivity|]. split; [assumption|]. split; [assumption|].
+          split; [apply Su; now left|]. eapply shiftU_cover; [assumption|eassumption|].
+          intros x Hx. lia.
+        * apply IH; try assumption.
+          -- simpl in Fu. destruct (shift_to_parents (q :: t) (parents g q)) as [|z zs] eqn:Es; simpl; [lia|].
+             assert (z < q); [|lia]. assert (Hz : In z (shift_to_parents (q :: t) (parents g q))) by (rewrite Es; now left).
+             apply shift_in in Hz; [|assumption]. destruct Hz as [Hz|[_ Hz]]; [now apply W in Hz|assumption].
+          -- eapply shiftU_cover; [assumption|eassumption|]. intros x Hx. lia.
+  Qed.
+
+  Record hinv (Wd U F : list nat) : Prop := {
+    hi_dw : desc Wd;
+    hi_du : desc U;
+    hi_su : forall u, In u U -> unw F u;
+    hi_sw : forall w, In w Wd -> inH w;
+    hi_cu : forall w, In w Wd -> coverU U F (S w);
+    hi_cw : forall x, inH x ->
+            (exists w, In w Wd /\ anc g x w) \/ unw F x \/ In x F \/
+            (flt x = false /\ forall w, In w Wd -> w < x);
+    hi_f : forall f, In f F -> inT f /\ (forall f', In f' F -> ~ sanc g f f');
+    hi_fw : forall f w, In f F -> In w Wd -> w < f;
+    hi_fs : sasc F;
+  }.
+
+  Lemma coverU_mono U F k k' : k' <= k -> coverU U F k -> coverU U F k'.
+  Proof. intros L C x Hx. apply C. lia. Qed.
+
+  Lemma hrf_loop_ok : forall fuel Wd U F,
+    hinv Wd U F -> hmeasure Wd < fuel ->
+    exists r, hrf_loop g 0 hi flt fuel Wd U F = Some r /\ sdesc r /\
+      (forall x, In x r -> inT x /\ forall f', In f' r -> ~ sanc g x f') /\
+      (forall x, inH x -> unw r x \/ In x r \/ flt x = false).
+  Proof.
+    induction fuel as [|fuel IH]; intros Wd U F I Fu; [lia|].
+    cbn [hrf_loop]. destruct Wd as [|w t].
+    - exists (rev F). split; [reflexivity|]. split; [apply sasc_rev, (hi_fs _ _ _ I)|]. split.
+      + intros x Hx. apply in_rev in Hx. destruct (hi_f _ _ _ I x Hx) as [T1 T2]. split; [assumption|].
+        intros f' Hf'. apply T2. now apply in_rev.
+      + intros x Hx. destruct (hi_cw _ _ _ I x Hx) as [(w & [] & _)|[H|[H|[H _]]]].
+        * left. destruct H as [H|(f & Hf & Hs)]; [now left|right; exists f; split; [now apply in_rev in Hf|assumption]].
+        * right. left. now apply in_rev in H.
+        * right. now right.
+    - pose proof (hi_dw _ _ _ I) as Dw. pose proof (hi_du _ _ _ I) as Du.
+      assert (Fu' : hd 0 U < top_fuel U) by (unfold top_fuel; lia).
+      destruct (shift_until_ok F w _ U Du Fu' (hi_su _ _ _ I) (hi_cu _ _ _ I w (or_introl eq_refl)))
+        as (U' & b & E & Du' & Su' & Rb).
+      rewrite E.
+      assert (Hpop : forall y, In y (dedup_pop (w :: t)) <-> In y t /\ y < w).
+      { intros y. now apply dedup_pop_in. }
+      assert (Mpop : hmeasure (dedup_pop (w :: t)) <= w).
+      { apply hmeasure_lt. intros y Hy. now apply Hpop in Hy. }
+      destruct b.
+      + (* w is an ancestor of a root or of a found head: dropped *)
+        destruct Rb as [Uw Cv'].
+        apply IH; [|simpl in Fu; lia]. constructor; try assumption.
+        * now apply dedup_pop_desc.
+        * intros y Hy. apply Hpop in Hy. apply (hi_sw _ _ _ I). now right.
+        * intros y Hy. apply Hpop in Hy. eapply coverU_mono; [|exact Cv']. lia.
+        * intros x Hx. destruct (hi_cw _ _ _ I x Hx) as [(w0 & Hw0 & Ha)|[H|[H|[H1 H2]]]].
+          -- assert (Q : w0 = w \/ (In w0 t /\ w0 < w)).
+             { destruct Hw0 as [->|Hw0]; [now left|]. destruct Dw as [B _]. specialize (B _ Hw0).
+               destruct (Nat.eq_dec w0 w); [now left|right; split; [assumption|lia]]. }
+             destruct Q as [->|Q]; [right; left; now apply (unw_anc F x w)|].
+             left. exists w0. split; [now apply Hpop|assumption].
+          -- right. now left.
+          -- right. right. now left.
+          -- right. right. right. split; [assumption|]. intros y Hy. apply Hpop in Hy. apply H2. now right.
+        * apply (hi_f _ _ _ I).
+        * intros f y Hf Hy. apply Hpop in Hy. apply (hi_fw _ _ _ I f y Hf). now right.
+        * apply (hi_fs _ _ _ I).
+      + destruct Rb as [Lt Cv'].
+        assert (Nw : ~ unw F w).
+        { intros C. destruct (Cv' w (Nat.lt_succ_diag_r w) C) as (u & Hu & Ha).
+          apply Lt in Hu. apply (anc_le _ _ _ W) in Ha. lia. }
+        destruct (flt w) eqn:Ew.
+        * (* a head *)
+          apply IH; [|simpl in Fu; lia]. constructor.
+          -- now apply dedup_pop_desc.
+          -- now apply hextend_desc.
+          -- intros u Hu. apply hextend_in in Hu. destruct Hu as [Hu|Hu].
+             ++ right. exists w. split; [now left|]. split; [now apply anc_parent|]. apply W in Hu. lia.
+             ++ apply unw_mono. now apply Su'.
+          -- intros y Hy. apply Hpop in Hy. apply (hi_sw _ _ _ I). now right.
+          -- intros y Hy x Hx Ux. apply Hpop in Hy.
+             destruct Ux as [Ux|(f & [<-|Hf] & Hs)].
+             ++ destruct (Cv' x) as (u & Hu & Ha); [lia|now left|]. exists u. split; [|assumption].
+                apply hextend_in. now right.
+             ++ destruct (sanc_inv _ _ _ Hs) as (p & Hp & Hxp). exists p. split; [|assumption].
+                apply hextend_in. now left.
+             ++ destruct (Cv' x) as (u & Hu & Ha); [lia|right; now exists f|]. exists u. split; [|assumption].
+                apply hextend_in. now right.
+          -- intros x Hx. destruct (hi_cw _ _ _ I x Hx) as [(w0 & Hw0 & Ha)|[H|[H|[H1 H2]]]].
+             ++ assert (Q : w0 = w \/ (In w0 t /\ w0 < w)).
+                { destruct Hw0 as [->|Hw0]; [now left|]. destruct Dw as [B _]. specialize (B _ Hw0).
+                  destruct (Nat.eq_dec w0 w); [now left|right; split; [assumption|lia]]. }
+                destruct Q as [->|Q].
+                ** destruct (Nat.eq_dec x w) as [->|N]; [right; right; left; now left|].
+                   right. left. right. exists w. split; [now left|now split].
+                ** left. exists w0. split; [now apply Hpop|assumption].
+             ++ right. left. now apply unw_mono.
+             ++ right. right. left. now right.
+             ++ right. right. right. split; [assumption|]. intros y Hy. apply Hpop in Hy. apply H2. now right.
+          -- intros f [<-|Hf].
+             ++ split.
+                ** split; [apply (hi_sw _ _ _ I); now left|]. split; [|assumption].
+                   intros C. apply Nw. now left.
+                ** intros f' [<-|Hf'] S0; [destruct S0; congruence|].
+                   apply Nw. right. exists f'. split; [assumption|exact S0].
+             ++ destruct (hi_f _ _ _ I f Hf) as [T1 T2]. split; [assumption|].
+                intros f' [<-|Hf'] S0; [|now apply (T2 f')].
+                pose proof (hi_fw _ _ _ I f w Hf (or_introl eq_refl)). apply (sanc_lt _ _ _ W) in S0. lia.
+          -- intros f y [<-|Hf] Hy; apply Hpop in Hy; [lia|]. apply (hi_fw _ _ _ I f y Hf). now right.
+          -- split; [|apply (hi_fs _ _ _ I)]. intros y Hy. apply (hi_fw _ _ _ I y w Hy). now left.
+        * (* not selected: its parents become wanted *)
+          rewrite slice_all.
+          assert (Hsh : forall y, In y (shift_to_parents (w :: t) (parents g w)) <->
+                                  In y (parents g w) \/ (In y t /\ y < w)).
+          { intros y. now apply shift_in. }
+          assert (Lsh : forall y, In y (shift_to_parents (w :: t) (parents g w)) -> y < w).
+          { intros y Hy. apply Hsh in Hy. destruct Hy as [Hy|[_ Hy]]; [now apply W in Hy|assumption]. }
+          apply IH.
+          -- constructor; try assumption.
+             ++ now apply shift_desc.
+             ++ intros y Hy. apply Hsh in Hy. destruct Hy as [Hy|[Hy _]].
+                ** destruct (hi_sw _ _ _ I w (or_introl eq_refl)) as (h & Hh & Ha). exists h.
+                   split; [assumption|]. eapply anc_trans; [apply anc_parent; eassumption|assumption].
+                ** apply (hi_sw _ _ _ I). now right.
+             ++ intros y Hy. apply Lsh in Hy. eapply coverU_mono; [|exact Cv']. lia.
+             ++ intros x Hx. destruct (hi_cw _ _ _ I x Hx) as [(w0 & Hw0 & Ha)|[H|[H|[H1 H2]]]].
+                ** assert (Q : w0 = w \/ (In w0 t /\ w0 < w)).
+                   { destruct Hw0 as [->|Hw0]; [now left|]. destruct Dw as [B _]. specialize (B _ Hw0).
+                     destruct (Nat.eq_dec w0 w); [now left|right; split; [assumption|lia]]. }
+                   destruct Q as [->|Q].
+                   --- destruct (Nat.eq_dec x w) as [->|N].
+                       +++ right. right. right. split; [assumption|]. intros y Hy. now apply Lsh.
+                       +++ destruct (sanc_inv _ _ _ (conj Ha N)) as (p & Hp & Hxp). left. exists p.
+                           split; [|assumption]. apply Hsh. now left.
+                   --- left. exists w0. split; [apply Hsh; now right|assumption].
+                ** right. now left.
+                ** right. right. now left.
+                ** right. right. right. split; [assumption|]. intros y Hy. apply Lsh in Hy.
+                   pose proof (H2 w (or_introl eq_refl)). lia.
+             ++ apply (hi_f _ _ _ I).
+             ++ intros f y Hf Hy. apply Lsh in Hy. pose proof (hi_fw _ _ _ I f w Hf (or_introl eq_refl)). lia.
+             ++ apply (hi_fs _ _ _ I).
+          -- assert (hmeasure (shift_to_parents (w :: t) (parents g w)) <= w) by (now apply hmeasure_lt).
+             simpl in Fu. lia.
+  Qed.
+End HeadsRange.
+
+Lemma hrf_ok (g : graph) (W : wf g) rs hs flt hi :
+  (forall i, length (parents g i) <= hi) -> (forall h, In h hs -> h < length g) ->
+  heads_from_range_and_filter g rs hs 0 hi flt =
+  Some (heads_of g (filter (fun x => anc_any g hs x && negb (anc_any g rs x) && flt x) (all_pos_desc g))).
+Proof.
+  intros Hhi Rh. unfold heads_from_range_and_filter. destruct hs as [|h0 hs'].
+  - f_equal. symmetry.
+    assert (E : filter (fun x => anc_any g [] x && negb (anc_any g rs x) && flt x) (all_pos_desc g) = []).
+    { generalize (all_pos_desc g). induction l as [|y l IH]; [reflexivity|]. simpl. exact IH. }
+    rewrite E. reflexivity.
+  - set (hs := h0 :: hs') in *. set (TL := filter _ (all_pos_desc g)).
+    assert (TLin : forall y, In y TL <-> y < length g /\ inT g rs hs flt y).
+    { intros y. unfold TL, inT, inH, inR. rewrite filter_In, all_pos_in, !andb_true_iff, negb_true_iff.
+      rewrite anc_any_spec by assumption.
+      assert (E : anc_any g rs y = false <-> ~ (exists r, In r rs /\ anc g y r)).
+      { rewrite <- Bool.not_true_iff_false, anc_any_spec by assumption. tauto. }
+      rewrite E. tauto. }
+    destruct (hrf_loop_ok g W rs hs flt hi Hhi (S (hmeasure (heap_from hs))) (heap_from hs) (heap_from rs) [])
+      as (r & E & SD & Rs & Rc); [|lia|].
+    { constructor; try apply heap_from_desc.
+      - intros u Hu. apply (proj1 (heap_from_in _ _)) in Hu. left. exists u. split; [assumption|constructor].
+      - intros w Hw. apply (proj1 (heap_from_in _ _)) in Hw. exists w. split; [assumption|constructor].
+      - intros w _ x _ [(r & Hr & Ha)|(f & [] & _)]. exists r. split; [now apply heap_from_in|assumption].
+      - intros x (h & Hh & Ha). left. exists h. split; [now apply heap_from_in|assumption].
+      - intros f [].
+      - intros f w [].
+      - exact I. }
+    rewrite E. f_equal. apply sdesc_ext; [assumption|apply sdesc_filter, sdesc_filter, sdesc_all_pos|].
+    intros x. rewrite heads_of_spec by assumption. split.
+    + intros Hx. destruct (Rs x Hx) as [Tx Mx]. split.
+      * apply TLin. split; [|assumption]. destruct Tx as [(h & Hh & Ha) _].
+        pose proof (anc_le _ _ _ W Ha). specialize (Rh h Hh). lia.
+      * intros y Hy Ha. destruct (Nat.eq_dec y x) as [E'|N]; [assumption|exfalso].
+        apply TLin in Hy. destruct Hy as [_ (Hy1 & Hy2 & Hy3)].
+        destruct (Rc y Hy1) as [[C|(f' & Hf' & S0)]|[C|C]].
+        -- contradiction.
+        -- apply (Mx f' Hf'). eapply anc_sanc_trans; eassumption.
+        -- apply (Mx y C). split; [assumption|congruence].
+        -- congruence.
+    + intros [Hx Mx]. apply TLin in Hx. destruct Hx as [Lx (Hx1 & Hx2 & Hx3)].
+      destruct (Rc x Hx1) as [[C|(f' & Hf' & S0)]|[C|C]]; [contradiction| |assumption|congruence].
+      exfalso. destruct S0 as [Ha N]. apply N. symmetry. apply Mx; [|assumption].
+      apply TLin. destruct (Rs f' Hf') as [Tf _]. split; [|assumption].
+      destruct Tf as [(h & Hh & Ha') _]. pose proof (anc_le _ _ _ W Ha'). specialize (Rh h Hh). lia.
+Qed.
+
+Lemma heads_range_ok (g : graph) (W : wf g) roots heads flt hi :
+  (forall i, length (parents g i) <= hi) -> (forall h, In h heads -> h < length g) ->
+  heads_range g roots heads 0 hi flt = Some (spec_heads_range g roots heads flt).
+Proof.
+  intros Hhi Rh. unfold heads_range.
+  set (rs := dedup_adj (heap_from roots)).
+  set (hs := filter (fun h => negb (memn h rs)) (dedup_adj (heap_from heads))).
+  assert (Rin : forall x, In x rs <-> In x roots).
+  { intros x. unfold rs. now rewrite dedup_adj_in, heap_from_in. }
+  assert (Hin : forall x, In x hs <-> In x heads /\ ~ In x roots).
+  { intros x. unfold hs. rewrite filter_In, dedup_adj_in, heap_from_in, negb_true_iff, memn_false, Rin. tauto. }
+  rewrite hrf_ok; [|assumption|assumption|intros h Hh; apply Rh; now apply Hin in Hh].
+  f_equal. unfold spec_heads_range. f_equal. apply filter_ext. intros x.
+  fold (anc_any g heads x). fold (anc_any g roots x).
+  assert (E1 : anc_any g rs x = anc_any g roots x).
+  { apply Bool.eq_iff_eq_true. rewrite !anc_any_spec by assumption.
+    split; intros (r & Hr & Ha); exists r; (split; [now apply Rin|assumption]). }
+  rewrite E1. destruct (anc_any g roots x) eqn:Er; [now rewrite !andb_false_r|].
+  rewrite !andb_true_r. f_equal. apply Bool.eq_iff_eq_true. rewrite !anc_any_spec by assumption.
+  split.
+  - intros (h & Hh & Ha). exists h. split; [now apply Hin in Hh|assumption].
+  - intros (h & Hh & Ha). exists h. split; [|assumption]. apply Hin. split; [assumption|].
+    intros C. assert (X : anc_any g roots x = true); [|congruence].
+    apply anc_any_spec; [assumption|]. now exists h.
+Qed.
+
+Lemma heads_range_thm : forall (g : graph) roots heads flt hi, wf g ->
+  (forall i, length (parents g i) <= hi) -> (forall h, In h heads -> h < length g) ->
+  heads_range g roots heads 0 hi flt = Some (spec_heads_range g roots heads flt) /\
+  sdesc (spec_heads_range g roots heads flt) /\
+  forall x, In x (spec_heads_range g roots heads flt) <->
+    maximal_in g (fun y => y < length g /\ (exists h, In h heads /\ anc g y h) /\
+                           ~ (exists r0, In r0 roots /\ anc g y r0) /\ flt y = true) x.
+Proof.
+  intros g roots heads flt hi W Hhi Rh. split; [now apply heads_range_ok|].
+  split; [apply sdesc_filter, sdesc_filter, sdesc_all_pos|].
+  intros x. unfold spec_heads_range. rewrite heads_of_spec by assumption. unfold maximal_in.
+  assert (M : forall y, In y (filter (fun x0 => anc_any_t (ancsets g) heads x0 &&
+                 negb (anc_any_t (ancsets g) roots x0) && flt x0) (all_pos_desc g)) <->
+             (y < length g /\ (exists h, In h heads /\ anc g y h) /\
+              ~ (exists r0, In r0 roots /\ anc g y r0) /\ flt y = true)).
+  { intros y. rewrite filter_In, all_pos_in, !andb_true_iff, negb_true_iff.
+    fold (anc_any g heads y). fold (anc_any g roots y).
+    rewrite anc_any_spec by assumption.
+    assert (E : anc_any g roots y = false <-> ~ (exists r0, In r0 roots /\ anc g y r0)).
+    { rewrite <- Bool.not_true_iff_false, anc_any_spec by assumption. tauto. }
+    rewrite E. tauto. }
+  split; intros [H1 H2]; (split; [now apply M|]); intros y Hy; apply H2; now apply M.
+Qed.
